@@ -12,7 +12,7 @@ use std::str::FromStr;
 pub fn lanes() -> Vec<Lane> {
     vec![
         Lane { name: "relations", count: |c| if c.thorough() { 1_000_000 } else { 200_000 }, run: relations_lane },
-        Lane { name: "factorial", count: |_| 2 * 6 * 4 * 4 * 4, run: factorial_lane },
+        Lane { name: "factorial", count: |_| 2 * 6 * 4 * 5 * 4, run: factorial_lane },
     ]
 }
 
@@ -150,8 +150,10 @@ fn factorial_lane(ctx: &mut Ctx, idx: u64) {
         m.version = Some((relgen::OPS[v - 1].to_string(), ["1.0", "1:2.0~rc1-1", "2.3-1+b1", "0", "1.0~", "13"][v].to_string()));
     }
     m.archqual = [None, Some("any"), Some("native"), Some("amd64")][take(4)].map(|s| s.to_string());
-    m.archs = match take(4) {
+    m.archs = match take(5) {
         0 => None,
+        // the list can be present and empty ("0..n architectures"): printed `[]`
+        4 => Some(vec![]),
         1 => Some(vec![(false, "amd64".into())]),
         2 => Some(vec![(false, "amd64".into()), (false, "linux-any".into()), (false, "i386".into())]),
         _ => Some(vec![(true, "amd64".into()), (true, "hurd-i386".into())]),
